@@ -15,7 +15,7 @@ import (
 func init() {
 	Register(&Prop{ID: "C18",
 		Meta: Meta{Level: "exploration",
-			Rule:       "real Client+Serve with a cooperative plugin; a drawn history of 0-6 steps from {dispense, call, brokered connection host->plugin, brokered connection plugin->host, stdio write, ping, streaming call} x protocol {net/rpc, gRPC, gRPC+mux} x TLS {none, AutoMTLS} x launch {command, custom runner, custom runner with address translation}; every configuration with the empty and the full history enumerated, seeded histories and schedule noise in the shutdown paths on top. Oracle after Kill returned and the plugin exited by itself: the file system holds no socket file or directory created by the host or the plugin process that was not there before (main listener, brokered listeners on both sides, the runner's plugin-dir*), and 10 simulated seconds later no goroutine labelled with the host process is inside a go-plugin function",
+			Rule:       "real Client+Serve with a cooperative plugin; a drawn history of 0-6 steps from {dispense, call, brokered connection host->plugin, brokered connection plugin->host, stdio write, ping, streaming call} x protocol {net/rpc, gRPC, gRPC+mux} x TLS {none, AutoMTLS} x launch {command, custom runner, custom runner with address translation} x UnixSocketConfig {none, empty, own TempDir}; every configuration with the empty and the full history enumerated, seeded histories and schedule noise in the shutdown paths on top. Oracle after Kill returned and the plugin exited by itself: the file system holds no socket file or directory created by the host or the plugin process that was not there before (main listener, brokered listeners on both sides, the runner's plugin-dir*), and 10 simulated seconds later no goroutine labelled with the host process is inside a go-plugin function",
 			Exhaustive: "protocol x TLS x launch x {empty history, full history}"},
 		Plan: func(tier string, seed uint64, stage int, prev []*h.Result) []*k.Spec {
 			if stage > 0 {
@@ -25,6 +25,10 @@ func init() {
 			for _, c := range c03Confs {
 				for _, l := range []map[string]string{P("launch", "cmd"), P("launch", "runner"), P("launch", "runner", "xlate", "1")} {
 					confs = append(confs, cp(c, "launch", l["launch"], "xlate", l["xlate"]))
+					if l["xlate"] == "" {
+						// the host was given a UnixSocketConfig (with and without a directory of its own)
+						confs = append(confs, cp(c, "launch", l["launch"], "usc", []string{"empty", "tmpdir"}[len(confs)%2]))
+					}
 				}
 			}
 			if tier == "selftest" {
@@ -35,7 +39,7 @@ func init() {
 			var out []*k.Spec
 			for _, c := range confs {
 				for _, hist := range []string{"empty", "full", "noclient"} {
-					out = append(out, sp("C18", fmt.Sprintf("cell/%s/%s%s/%s", confLabel(c), c["launch"], c["xlate"], hist), seed, cp(c, "hist", hist)))
+					out = append(out, sp("C18", fmt.Sprintf("cell/%s/%s%s/%s", confLabel(c), c["launch"], c["xlate"]+c["usc"], hist), seed, cp(c, "hist", hist)))
 				}
 			}
 			n := 500
@@ -61,6 +65,10 @@ func runC18(r *h.Run) {
 	c := r.ConfFromParams()
 	c.Translate = r.Spec.P("xlate", "") == "1"
 	ctx := "conf=" + c.String()
+	if c.USC == "tmpdir" {
+		w.Mkdir("/run")
+		w.Mkdir("/run/hostsock")
+	}
 	before := map[string]bool{}
 	for _, p := range w.Paths() {
 		before[p] = true
